@@ -26,6 +26,7 @@ type item struct {
 	text string
 	syms map[string]bool
 	note string
+	heavy bool // quantified library axiom prone to matching loops: left out of the first (light) attempt
 }
 
 type Obligation struct {
@@ -155,6 +156,13 @@ func (vc *VC) Assume(t Term, note string) {
 	vc.items = append(vc.items, item{kind: itAssume, text: fmt.Sprintf("(assert %s)", t.S), syms: symsOf(t.S), note: note})
 }
 
+// AssumeHeavy: as Assume, but the fact is only given to the solver in the second attempt at an obligation
+// (omitting an assumption is always sound for a proof; it keeps permutation-style axioms out of queries
+// that do not need them).
+func (vc *VC) AssumeHeavy(t Term, note string) {
+	vc.items = append(vc.items, item{kind: itAssume, text: fmt.Sprintf("(assert %s)", t.S), syms: symsOf(t.S), note: note, heavy: true})
+}
+
 func (vc *VC) Raw(text string) {
 	vc.rawPrelude = append(vc.rawPrelude, text)
 	// names defined by raw text
@@ -199,7 +207,19 @@ func (vc *VC) AddObl(o *Obligation) *Obligation {
 }
 
 // Query builds the SMT-LIB text for an obligation, with cone-of-influence slicing of the prefix.
-func (o *Obligation) Query(withModel bool) string {
+func (o *Obligation) Query(withModel bool) string { return o.QueryMode(withModel, false) }
+
+// HasHeavy reports whether heavy axioms are in scope of the obligation.
+func (o *Obligation) HasHeavy() bool {
+	for _, it := range o.vc.items[:o.Prefix] {
+		if it.heavy {
+			return true
+		}
+	}
+	return false
+}
+
+func (o *Obligation) QueryMode(withModel bool, light bool) string {
 	vc := o.vc
 	needed := map[string]bool{}
 	smtSymbols(o.Hyp.S, needed)
@@ -254,6 +274,9 @@ func (o *Obligation) Query(withModel bool) string {
 			case itDecl, itDef:
 				take = needed[it.name]
 			case itAssume:
+				if light && it.heavy {
+					continue
+				}
 				any := false
 				all := true
 				for s := range it.syms {
@@ -455,13 +478,7 @@ func (vc *VC) IfaceSort() *Sort {
 	return s
 }
 
-func (vc *VC) StrSort() *Sort {
-	if _, ok := vc.sorts["GoStr"]; !ok {
-		vc.sorts["GoStr"] = SStr
-		vc.sortDecls = append(vc.sortDecls, "(declare-sort GoStr 0)")
-	}
-	return SStr
-}
+func (vc *VC) StrSort() *Sort { return SStr }
 
 func (vc *VC) UnintSort(name string) *Sort {
 	if s, ok := vc.sorts[name]; ok {
